@@ -1454,6 +1454,22 @@ def db_retry(func: Callable) -> Callable:
 
     @wraps(func)
     def wrapper(self: "RedunBackendDb", *args, **kwargs):
+        # Retried methods call each other (e.g. record_call_node -> record_value). Only the
+        # outermost call may roll back and retry: a rollback by a nested call would discard the
+        # rows its caller has added to the shared session but not yet committed, and then retry
+        # only the nested call.
+        active = self.__dict__.setdefault("_db_retry_active", set())
+        thread_id = get_ident()
+        if thread_id in active:
+            return func(self, *args, **kwargs)
+
+        active.add(thread_id)
+        try:
+            return retry(self, *args, **kwargs)
+        finally:
+            active.discard(thread_id)
+
+    def retry(self: "RedunBackendDb", *args, **kwargs):
         self._db_retries_attempt = 0
         while True:
             try:
